@@ -314,6 +314,8 @@ Proof.
   - eexists. eexists. split; [reflexivity|]. split; [constructor; cbn; try assumption; exact I|]. cbn. repeat split; auto; lia.
   - cbn in G4. destruct G4 as [Ht Hr]. eexists. eexists. split; [reflexivity|]. split; [constructor; cbn; assumption|]. cbn. repeat split; auto.
 Qed.
+Lemma now_sp_nodes s : exists t s1, now s = (Ok t, s1) /\ h_nodes s1 = h_nodes s.
+Proof. unfold now. destruct (h_time s); eexists; eexists; (split; reflexivity). Qed.
 Definition isok (o : exc dyn) : bool := match o with Ok _ => true | Raise _ => false end.
 Lemma icall_sp m a s : G s -> exists o s1, icall sv m a s = (o, s1) /\ okout o /\ G s1 /\ h_nodes s1 = h_nodes s /\ h_failed s1 = h_failed s /\
   h_dead s1 = h_dead s /\ h_last_time s1 = h_last_time s /\ h_log s1 = HContact sv m a (isok o) (h_last_time s) :: h_log s.
@@ -619,20 +621,214 @@ Proof.
   unfold hbind. pose proof (run_cmd_inv 4 k (DBool false) args s Hi) as H1.
   destruct (run_cmd route c 4 k (DBool false) args s) as [[r|e] s1]; cbn [snd] in *; [apply IH, H1|exact H1].
 Qed.
-(* the calls of the theorem: every single-key command, delete_many (a loop of single-key deletes), clock ticks *)
-Definition single_key (o : hop) : Prop := match o with HSetMany _ _ | HGetMany _ _ => False | _ => True end.
-Lemma run_hop_inv o s : single_key o -> Inv s -> Inv (snd (run_hop route c o s)).
+(* ---- calls that go to several servers: set_many and get_many ---- *)
+(* under the outcome assumption, _safely_run_set_many moves the state exactly as _safely_run_func around the same inner call *)
+Lemma now_total s : exists t s1, now s = (Ok t, s1) /\ h_out s1 = h_out s /\ h_failed s1 = h_failed s.
+Proof. unfold now. destruct (h_time s); eexists; eexists; (split; [reflexivity|split; reflexivity]). Qed.
+Lemma icall_total sv' m a s : exists o s1, icall sv' m a s = (o, s1) /\ (Forall okout (h_out s) -> okout o).
 Proof.
-  destruct o; cbn [single_key run_hop]; intros Hk Hi; try contradiction.
+  unfold icall. destruct (h_out s) as [|o r]; eexists; eexists; (split; [reflexivity|]); intros H; [exact I|apply (Forall_inv H)].
+Qed.
+Lemma remove_out sv' s : h_out (snd (remove_server sv' s)) = h_out s.
+Proof.
+  unfold remove_server, hbind. destruct (now_total s) as (t & s1 & En & Ho & Hf). rewrite En.
+  destruct (sv_get (h_failed s1) sv'); [|exact Ho]. cbn zeta. cbn [upd h_nodes].
+  destruct (sv_mem (h_nodes s1) sv'); cbn; exact Ho.
+Qed.
+Lemma set_many_state sv' values args d s : Forall okout (h_out s) ->
+  snd (safely_run_set_many c sv' values args s) = snd (safely_run c sv' (icall sv' 1 (DDict values :: args)) d s).
+Proof.
+  intros Ho. unfold safely_run_set_many, safely_run, htry, hbind, set_many_inner.
+  assert (Tail : forall s1 : hstate, Forall okout (h_out s1) ->
+    snd (let (e, s') := (let (e, s') := (let (e, s') := icall sv' 1 (DDict values :: args) s1 in
+              match e with
+              | Ok (DList failed) => (Ok (filter (not_in failed) (keys_of values), failed, None), s')
+              | Ok _ => (Ok (keys_of values, [], None), s')
+              | Raise e0 => if exn_isa e0 OSError then (Ok ([], [], Some e0), s')
+                            else if exn_isa e0 Exception_ then (if hc_ignore_exc c then (Ok (keys_of values, [], None), s') else (Ok ([], [], Some e0), s'))
+                            else (Raise e0, s') end) in
+            match e with
+            | Ok a => (let '(succ, failed, err) := a in match err with Some e0 => hthrow e0 | None => hret (failed, succ) end) s'
+            | Raise e0 => (Raise e0, s') end) in
+         match e with
+         | Ok (failed, _) => (Ok failed, s')
+         | Raise e0 => if exn_isa e0 OSError then
+                         (let (e1, s'0) := mark_failed c sv' s' in
+                          match e1 with Ok _ => (if hc_ignore_exc c then hret (keys_of values) else hthrow e0) s'0 | Raise e2 => (Raise e2, s'0) end)
+                       else if exn_isa e0 Exception_ then (if hc_ignore_exc c then (Ok (keys_of values), s') else (Raise e0, s')) else (Raise e0, s') end)
+    = snd (let (e, s') := icall sv' 1 (DDict values :: args) s1 in
+           match e with
+           | Ok a => (Ok a, s')
+           | Raise e0 => dispatch_handlers
+               [(OSError, fun (e1 : exn) (s0 : hstate) => let (e2, s'0) := mark_failed c sv' s0 in
+                            match e2 with Ok _ => (if hc_ignore_exc c then hret d else hthrow e1) s'0 | Raise e3 => (Raise e3, s'0) end);
+                (Exception_, fun e1 : exn => if hc_ignore_exc c then hret d else hthrow e1)] e0 s' end)).
+  { intros s1 H1. destruct (icall_total sv' 1 (DDict values :: args) s1) as (o & s2 & Ei & Hk). rewrite Ei. specialize (Hk H1).
+    destruct o as [v|e].
+    - destruct v; reflexivity.
+    - cbn [okout] in Hk. rewrite Hk. cbn [hthrow]. cbn [dispatch_handlers]. rewrite Hk. rewrite !snd_then'. reflexivity. }
+  destruct (sv_get (h_failed s) sv') as [[att ft]|] eqn:Er.
+  - destruct (att <? ra).
+    + destruct (now_total s) as (t & s1 & En & Ho1 & Hf1). rewrite En. rewrite <- Ho1 in Ho.
+      destruct (t - ft >? rt); [|reflexivity].
+      destruct (icall_total sv' 1 (DDict values :: args) s1) as (o & s2 & Ei & Hk). rewrite Ei. specialize (Hk Ho).
+      destruct o as [v|e].
+      * destruct v; reflexivity.
+      * cbn [okout] in Hk. rewrite Hk. cbn [hthrow]. cbn [dispatch_handlers]. rewrite Hk. rewrite !snd_then'. reflexivity.
+    + pose proof (remove_out sv' s) as Hro.
+      destruct (remove_server sv' s) as [[u|e] s1]; cbn [snd] in Hro.
+      * cbn [hret]. rewrite <- Hro in Ho. apply (Tail s1 Ho).
+      * destruct (exn_isa e OSError) eqn:E1; cbn [dispatch_handlers]; rewrite E1; [rewrite !snd_then'; reflexivity|].
+        destruct (exn_isa e Exception_); [destruct (hc_ignore_exc c); reflexivity|reflexivity].
+  - apply (Tail s Ho).
+Qed.
+Lemma FR_set_many sv' values args : list_eqb sv' sv = false -> FR (safely_run_set_many c sv' values args).
+Proof.
+  intros N s Gs. rewrite (set_many_state sv' values args (DList []) s (g_out s Gs)).
+  apply (FR_safely sv' (icall sv' 1 (DDict values :: args)) (DList []) N (FR_icall sv' 1 _ N) s Gs).
+Qed.
+Lemma set_many_sv values args s : Inv s -> sv_mem (h_nodes s) sv = true -> Inv (snd (safely_run_set_many c sv values args s)).
+Proof. intros Hi Hm. rewrite (set_many_state sv values args (DList []) s (g_out s (proj1 Hi))). apply safely_sv; assumption. Qed.
+
+(* rotation membership of sv survives routing (revival only adds nodes) *)
+Lemma sv_mem_app_l l l' k : sv_mem l k = true -> sv_mem (l ++ l') k = true.
+Proof. unfold sv_mem. intros H. rewrite existsb_app. apply orb_true_iff. left. exact H. Qed.
+Lemma revive_go_mem t : forall l s, sv_mem (h_nodes s) sv = true -> sv_mem (h_nodes (snd (revive_go t l s))) sv = true.
+Proof.
+  induction l as [|x r IH]; intros s H; [exact H|]. cbn [revive_go]. unfold hbind, add_server, hlog. cbn [snd upd h_nodes].
+  change ((fix go (l : list server) : HM unit := match l with
+        | [] => fun s => (Ok tt, upd s (h_nodes s) (h_clients s) (h_failed s) (h_dead s) t)
+        | x :: r => add_server x ;;;; hlog (HRevive x t) ;;;; (fun s => (Ok tt, upd s (h_nodes s) (h_clients s) (h_failed s) (sv_del (h_dead s) x) (h_last_check s))) ;;;; go r end) r) with (revive_go t r).
+  apply IH. cbn [upd h_nodes]. destruct (sv_mem (h_nodes s) x); [exact H|apply sv_mem_app_l, H].
+Qed.
+Lemma get_client_mem key s : sv_mem (h_nodes s) sv = true -> sv_mem (h_nodes (snd (get_client route c key s))) sv = true.
+Proof.
+  intros H. unfold get_client.
+  destruct (match key with DTuple [a; b] => (a, b) | _ => (key, key) end) as [server_key k].
+  unfold hbind at 1.
+  destruct (match server_key with
+            | DStr _ | DBytes _ => match key_spec server_key (hc_unicode c) (hc_prefix c) with Ok _ => Ok tt | Raise e => Raise e end
+            | _ => Raise TypeError end) as [u|e]; [|exact H].
+  unfold hbind.
+  assert (H2 : sv_mem (h_nodes (snd (match h_dead s with [] => (Ok tt, s) | _ :: _ => retry_dead c s end))) sv = true).
+  { destruct (h_dead s); [exact H|]. rewrite retry_dead_eq. unfold hbind. destruct (now_sp_nodes s) as (t & s1 & En & N1). rewrite En.
+    destruct (t - h_last_check s1 >? dt); [apply revive_go_mem; rewrite N1; exact H|cbn [snd]; rewrite N1; exact H]. }
+  destruct (match h_dead s with [] => (Ok tt, s) | _ :: _ => retry_dead c s end) as [[u2|e2] s2]; cbn [snd] in H2; [|exact H2].
+  destruct (route (h_nodes s2) server_key) as [[sv'|]|e3]; [exact H2| |exact H2]. destruct (hc_ignore_exc c); exact H2.
+Qed.
+
+Definition Routed {V} (b : list (server * V)) (s : hstate) : Prop := In sv (map fst b) -> sv_mem (h_nodes s) sv = true.
+Lemma batch_add_keys {V} (b : list (server * list V)) x v :
+  map fst (batch_add b x v) = if sv_mem (map fst b) x then map fst b else map fst b ++ [x].
+Proof.
+  induction b as [|[k' l] t IH]; [reflexivity|]. cbn [batch_add map fst]. unfold sv_mem in *. cbn [existsb].
+  destruct (list_eqb k' x); cbn [orb map fst]; [reflexivity|]. rewrite IH. destruct (existsb (fun y => list_eqb y x) (map fst t)); reflexivity.
+Qed.
+Lemma batch_add_nodup {V} (b : list (server * list V)) x v : NoDup (map fst b) -> NoDup (map fst (batch_add b x v)).
+Proof.
+  intros H. rewrite batch_add_keys. destruct (sv_mem (map fst b) x) eqn:E; [exact H|].
+  apply nodup_snoc; [exact H|]. intros X. apply sv_mem_In in X. congruence.
+Qed.
+Lemma batch_add_routed {V} (b : list (server * list V)) x v s : Routed b s -> sv_mem (h_nodes s) x = true -> Routed (batch_add b x v) s.
+Proof.
+  intros R Hx Hin. rewrite batch_add_keys in Hin. destruct (sv_mem (map fst b) x); [apply R, Hin|].
+  apply in_app_or in Hin. destruct Hin as [Hin|[<-|[]]]; [apply R, Hin|exact Hx].
+Qed.
+
+Lemma collect_get_inv : forall ks b s, Inv s -> NoDup (map fst b) -> Routed b s ->
+  Inv (snd (collect_get route c ks b s)) /\
+  (forall b', fst (collect_get route c ks b s) = Ok b' -> NoDup (map fst b') /\ Routed b' (snd (collect_get route c ks b s))).
+Proof.
+  induction ks as [|key t IH]; intros b s Hi Hn Hr.
+  - cbn. split; [exact Hi|]. intros b' E. inversion E; subst. auto.
+  - cbn [collect_get]. unfold hbind. destruct (get_client_inv key s Hi) as [I1 Hm]. pose proof (get_client_mem key s) as Hmem.
+    destruct (get_client route c key s) as [[[osv k]|e] s1]; cbn [snd fst] in *; [|split; [exact I1|intros; discriminate]].
+    assert (R1 : Routed b s1) by (intros Hin; apply Hmem, Hr, Hin).
+    destruct osv as [sv'|]; [|apply IH; assumption].
+    apply IH; [exact I1|apply batch_add_nodup, Hn|apply batch_add_routed; [exact R1|apply (Hm sv' k s1 eq_refl)]].
+Qed.
+Lemma run_get_inv gets args : forall bs acc s, Inv s -> NoDup (map fst bs) -> Routed bs s -> Inv (snd (run_get c gets args bs acc s)).
+Proof.
+  induction bs as [|[sv' ks] t IH]; intros acc s Hi Hn Hr; [exact Hi|]. cbn [run_get]. unfold hbind.
+  cbn [map fst] in Hn. inversion Hn as [|? ? Hnot Hn']; subst.
+  destruct (list_eqb sv' sv) eqn:E.
+  - apply list_eqb_eq in E. subst sv'.
+    pose proof (safely_sv (if gets then 3 else 2) (DList ks :: args) (DDict []) s Hi (Hr (or_introl eq_refl))) as I1.
+    destruct (safely_run c sv (icall sv (if gets then 3 else 2) (DList ks :: args)) (DDict []) s) as [[res|e] s1]; cbn [snd] in *; [|exact I1].
+    apply IH; [exact I1|exact Hn'|intros Hin; contradiction].
+  - pose proof (FR_safely sv' (icall sv' (if gets then 3 else 2) (DList ks :: args)) (DDict []) E (FR_icall sv' _ _ E) s) as F1.
+    destruct (safely_run c sv' (icall sv' (if gets then 3 else 2) (DList ks :: args)) (DDict []) s) as [[res|e] s1]; cbn [snd] in *;
+      [|apply (Inv_frame s); assumption].
+    destruct (F1 (proj1 Hi)) as [G1 (V1 & V2 & V3 & V4 & V5 & V6)].
+    apply IH; [apply (Inv_frame s); assumption|exact Hn'|]. intros Hin. rewrite V3. apply Hr. right. exact Hin.
+Qed.
+Lemma get_many_inv gets keys args s : Inv s -> Inv (snd (get_many route c gets keys args s)).
+Proof.
+  intros Hi. unfold get_many. unfold hbind at 1.
+  destruct (collect_get_inv keys [] s Hi (NoDup_nil _) (fun X => match X with end)) as [I1 Hb].
+  destruct (collect_get route c keys [] s) as [[b|e] s1]; cbn [snd fst] in *; [|exact I1].
+  destruct (Hb b eq_refl) as [Hn Hr]. unfold hbind.
+  pose proof (run_get_inv gets args b [] s1 I1 Hn Hr) as I2.
+  destruct (run_get c gets args b [] s1) as [[r|e] s2]; exact I2.
+Qed.
+
+Lemma collect_set_inv : forall vs b failed s, Inv s -> NoDup (map fst b) -> Routed b s ->
+  Inv (snd (collect_set route c vs b failed s)) /\
+  (forall b' f', fst (collect_set route c vs b failed s) = Ok (b', f') -> NoDup (map fst b') /\ Routed b' (snd (collect_set route c vs b failed s))).
+Proof.
+  induction vs as [|v t IH]; intros b failed s Hi Hn Hr.
+  - cbn. split; [exact Hi|]. intros b' f' E. inversion E; subst. auto.
+  - cbn [collect_set].
+    assert (Skip : Inv (snd (collect_set route c t b failed s)) /\
+      (forall b' f', fst (collect_set route c t b failed s) = Ok (b', f') -> NoDup (map fst b') /\ Routed b' (snd (collect_set route c t b failed s))))
+      by (apply IH; assumption).
+    destruct v as [| | | | | |l| |]; try exact Skip.
+    destruct l as [|key [|value [|x l']]]; try exact Skip.
+    unfold hbind. destruct (get_client_inv key s Hi) as [I1 Hm]. pose proof (get_client_mem key s) as Hmem.
+    destruct (get_client route c key s) as [[[osv k]|e] s1]; cbn [snd fst] in *; [|split; [exact I1|intros; discriminate]].
+    assert (R1 : Routed b s1) by (intros Hin; apply Hmem, Hr, Hin).
+    destruct osv as [sv'|]; [|apply IH; assumption].
+    apply IH; [exact I1|apply batch_add_nodup, Hn|apply batch_add_routed; [exact R1|apply (Hm sv' k s1 eq_refl)]].
+Qed.
+Lemma run_set_inv args : forall bs failed s, Inv s -> NoDup (map fst bs) -> Routed bs s -> Inv (snd (run_set c args bs failed s)).
+Proof.
+  induction bs as [|[sv' vals] t IH]; intros failed s Hi Hn Hr; [exact Hi|]. cbn [run_set]. unfold hbind.
+  cbn [map fst] in Hn. inversion Hn as [|? ? Hnot Hn']; subst.
+  destruct (list_eqb sv' sv) eqn:E.
+  - apply list_eqb_eq in E. subst sv'.
+    pose proof (set_many_sv vals args s Hi (Hr (or_introl eq_refl))) as I1.
+    destruct (safely_run_set_many c sv vals args s) as [[res|e] s1]; cbn [snd] in *; [|exact I1].
+    apply IH; [exact I1|exact Hn'|intros Hin; contradiction].
+  - pose proof (FR_set_many sv' vals args E s) as F1.
+    destruct (safely_run_set_many c sv' vals args s) as [[res|e] s1]; cbn [snd] in *; [|apply (Inv_frame s); assumption].
+    destruct (F1 (proj1 Hi)) as [G1 (V1 & V2 & V3 & V4 & V5 & V6)].
+    apply IH; [apply (Inv_frame s); assumption|exact Hn'|]. intros Hin. rewrite V3. apply Hr. right. exact Hin.
+Qed.
+Lemma set_many_inv values args s : Inv s -> Inv (snd (set_many route c values args s)).
+Proof.
+  intros Hi. unfold set_many. unfold hbind at 1.
+  destruct (collect_set_inv values [] [] s Hi (NoDup_nil _) (fun X => match X with end)) as [I1 Hb].
+  destruct (collect_set route c values [] [] s) as [[[b f0]|e] s1]; cbn [snd fst] in *; [|exact I1].
+  destruct (Hb b f0 eq_refl) as [Hn Hr]. unfold hbind.
+  pose proof (run_set_inv args b f0 s1 I1 Hn Hr) as I2.
+  destruct (run_set c args b f0 s1) as [[r|e] s2]; exact I2.
+Qed.
+
+(* every key-addressed operation of the model, and clock ticks *)
+Lemma run_hop_inv o s : Inv s -> Inv (snd (run_hop route c o s)).
+Proof.
+  destruct o; cbn [run_hop]; intros Hi.
   - apply run_cmd_inv, Hi.
+  - apply set_many_inv, Hi.
+  - apply get_many_inv, Hi.
   - apply delete_many_inv, Hi.
   - apply (FR_inv _ s); [|exact Hi]. apply FR_bind; [apply FR_now|]. intros _. apply FR_ret.
 Qed.
-Lemma run_hops_inv : forall ops s, Forall single_key ops -> Inv s -> Inv (snd (run_hops route c ops s)).
+Lemma run_hops_inv : forall ops s, Inv s -> Inv (snd (run_hops route c ops s)).
 Proof.
-  induction ops as [|o t IH]; intros s Hk Hi; [exact Hi|]. cbn [run_hops].
-  pose proof (run_hop_inv o s (Forall_inv Hk) Hi) as H1. destruct (run_hop route c o s) as [r s1]. cbn [snd] in H1.
-  pose proof (IH s1 (Forall_inv_tail Hk) H1) as H2. destruct (run_hops route c t s1) as [[rs|e] s2]; exact H2.
+  induction ops as [|o t IH]; intros s Hi; [exact Hi|]. cbn [run_hops].
+  pose proof (run_hop_inv o s Hi) as H1. destruct (run_hop route c o s) as [r s1]. cbn [snd] in H1.
+  pose proof (IH s1 H1) as H2. destruct (run_hops route c t s1) as [[rs|e] s2]; exact H2.
 Qed.
 
 Lemma init_nodup : forall servers acc, NoDup acc -> NoDup (fold_left (fun l s => if sv_mem l s then l else l ++ [s]) servers acc).
@@ -647,7 +843,7 @@ Proof.
 Qed.
 
 (* every failing contact of sv, at the moment it was made, respected both windows *)
-Theorem windows_hold servers t0 times outs ops : mono t0 times -> Forall okout outs -> Forall single_key ops ->
+Theorem windows_hold servers t0 times outs ops : mono t0 times -> Forall okout outs ->
   log_ok (h_log (snd (run_hops route c ops (init_hstate servers t0 times outs)))).
-Proof. intros Hm Ho Hk. apply (run_hops_inv ops _ Hk (init_inv servers t0 times outs Hm Ho)). Qed.
+Proof. intros Hm Ho. apply (run_hops_inv ops _ (init_inv servers t0 times outs Hm Ho)). Qed.
 End Windows.
